@@ -108,6 +108,14 @@ def check(pid, tier, seed, n_cases=None, workers=None, budget_s=None):
                     done_chunks += 1
                 except Exception as exc:
                     harness_errors.append(f'worker died: {exc!r} chunk={futs[f][:2]}')
+                    # A broken pool terminates its workers with SIGTERM, which
+                    # the scheduler code under test handles (graceful stop):
+                    # kill them outright or the shutdown below never returns.
+                    for p in list((ex._processes or {}).values()):
+                        try:
+                            os.kill(p.pid, signal.SIGKILL)
+                        except Exception:
+                            pass
         except cf.TimeoutError:
             harness_errors.append(
                 f'batch wall budget {budget}s exceeded '
